@@ -301,9 +301,9 @@ func zzStep(h *zzHost, disk, mem filesystem.Filespace, ref *reftree.Node) bool {
 			nd.Assume(q[i] != 0)
 		}
 		dsegs, dclimbs := reftree.Norm(q)
-		// a destination inside the source makes the disk walk chase its own
-		// output until the host refuses the path length: outside the claim
-		nd.Assume(!reftree.IsPrefix(segs, dsegs))
+		// a destination inside the source meets the preconditions like any
+		// other (the copy is a snapshot of the source as it was); the disk
+		// walk used to chase its own output there (§11, repaired)
 		switch op {
 		case oCopyFile:
 			dErr, mErr = disk.CopyFile(p, q), mem.CopyFile(p, q)
@@ -316,7 +316,7 @@ func zzStep(h *zzHost, disk, mem filesystem.Filespace, ref *reftree.Node) bool {
 		refuse = inside && !dclimbs && s == nil
 		inside = inside && !dclimbs && len(segs) > 0 && len(dsegs) > 0 && s != nil &&
 			(op == oCopy || (op == oCopyFile) == !s.Dir) &&
-			!reftree.IsPrefix(segs, dsegs) && ref.Find(dsegs) == nil && ref.ParentExists(dsegs)
+			ref.Find(dsegs) == nil && ref.ParentExists(dsegs)
 		if inside {
 			nd.Assert(ref.CopyTo(s, dsegs), "C02/ref")
 		}
@@ -355,7 +355,7 @@ func zzTemplatePath(label string) string {
 		nd.Assume(nd.And(nd.And(n != "/", n != "."), n[0] != 0))
 		return n
 	}
-	switch nd.Choose(label, nd.Param("PT", 7)) {
+	switch nd.Choose(label, nd.Param("PT", 8)) {
 	case 0:
 		return "a/f"
 	case 1:
@@ -368,8 +368,10 @@ func zzTemplatePath(label string) string {
 		return "a/" + fresh()
 	case 5:
 		return "a/d"
-	default:
+	case 6:
 		return "a/d/h"
+	default:
+		return "a/d/" + fresh() // as a copy destination: two levels inside the source a
 	}
 }
 
@@ -392,6 +394,27 @@ func ZZVerifC02Pairs() {
 		zzStep(h, disk, mem, ref)
 	}
 	nd.Reach("C02/pairs-end")
+}
+
+// ZZVerifC02CopyInside: one directory copy with source and destination from
+// all eight templates - among them destinations one and two levels inside
+// the source (Copy(a, a/n), Copy(a, a/d/n)): the copy is a snapshot of the
+// source on both back ends - followed by any operation.
+func ZZVerifC02CopyInside() {
+	h := zzNewHost()
+	defer h.cleanup()
+	disk, err := diskfs.NewFilespace(h.base + "/r")
+	nd.Assume(err == nil)
+	mem, _ := memfs.NewFilespace()
+	ref := reftree.NewRoot()
+	zzPrelude([]filesystem.Filespace{disk, mem}, ref)
+	zzTemplates = true
+	zzOpSet = []int{oCopyDir, oCopy}
+	if zzStep(h, disk, mem, ref) {
+		zzOpSet = []int{oWriteFile, oRemoveAll, oReadDir, oQuery, oCopy}
+		zzStep(h, disk, mem, ref)
+	}
+	nd.Reach("C02/copyinside-end")
 }
 
 // ZZVerifC02Diff: K symbolic operations applied to a disk filespace (over the
